@@ -37,7 +37,7 @@ PY
   else
     status=survived
     for prop in $props; do
-      out=$(cd $S/verif && timeout 1800 ./check $prop quick --no-evidence 2>&1); rc=$?
+      out=$(cd $S/verif && timeout 1800 ./check $prop quick --fast-fail 2>&1); rc=$?
       if [ $rc -eq 1 ]; then status=detected; detail="$prop $(echo "$out" | grep -E 'violated' | head -1 | sed 's/^ *violated //' | cut -c1-160)"; break; fi
       if [ $rc -ne 0 ]; then status=harness-error; detail="$prop rc=$rc $(echo "$out" | grep -E 'HARNESS|error' | head -1 | cut -c1-160)"; break; fi
     done
